@@ -287,6 +287,19 @@ def run_crawl(start_urls, site, seed=0, concurrent=1, extra=(), workdir=None, po
         from wpull.application.options import AppArgumentParser
         from wpull.application.builder import Builder
         argv = default_argv(start_urls, db_path, out_dir, concurrent, extra)
+        if '--database-uri' in argv:
+            # the same database file, addressed by URI (GenericSQLURLTable) instead of --database (SQLiteURLTable)
+            k = argv.index('--database')
+            del argv[k:k + 2]
+            argv[argv.index('--database-uri') + 1] = 'sqlite:///' + db_path
+        if '--warc-dedup' in argv:
+            # a CDX index of an earlier capture, next to the database (loaded into the table at every start)
+            cdx = os.path.join(workdir, 'earlier.cdx')
+            if not os.path.exists(cdx):
+                with open(cdx, 'w') as f:
+                    f.write(' CDX a b m s k S V g u\n')
+                    f.write('http://a.test/earlier 20200101000000 text/html 200 AAAABBBBCCCCDDDDEEEEFFFFGGGGHHHH 10 0 old.warc.gz <urn:uuid:00000000-0000-4000-8000-000000000001>\n')
+            argv[argv.index('--warc-dedup') + 1] = cdx
         real_stderr = sys.stderr
         if verbose_tty:
             argv = [a for a in argv if a != '-q'] + ['-v']
